@@ -551,6 +551,8 @@ func init() {
 		checkJSONNumber(r, prog, a, "c02")
 		checkElementTransparency(r, prog, a, "c02")
 		checkDerefHelpers(r, prog, "c02")
+		r.importing = "C03"
+		checkConnectives(r, prog, a, "c03") // "bad literals are errors" wherever the comparison stands: under `not`, on either side of `and`/`or`
 		r.importing = "C09"
 		checkComparatorCalls(r, prog, a, a.EvalSet) // what a comparator compares with is the literal read for that very kind, without error
 		r.importing = "C19"
